@@ -28,9 +28,16 @@ def project(kind, case, step, op, line):
     return hist.outcome_class(line)
 
 
+def corpus_cases():
+    """read handles driven over both ends after partial reads (what a reader obtains after SeekFrom::End / Current once
+    its position has moved), and what is visible while write handles are open"""
+    return hist.reader_seek_cases("c04", ["mem", "phys", "alt_mem", "ovl_mm", "ovl_m"]) + \
+        hist.open_handle_cases("c04", ["mem", "phys", "alt_mem", "ovl_mm"])
+
+
 MIX = ["createfile"] * 6 + ["append"] * 4 + ["copyfile"] * 2 + ["movefile"] * 2 + ["readtostring"] * 2 + ["createdir", "metadata", "removefile"]
 P = histprop.HistProp(
-    "C04", ALL, typed=True, mix=MIX, project=project, quick_cases=6, thorough_cases=80, nops=(8, 16),
+    "C04", ALL, typed=True, mix=MIX, project=project, corpus_cases=corpus_cases, quick_cases=6, thorough_cases=80, nops=(8, 16),
     rule=("random write sessions (create with writes, in-place overwrites via seek, seeks past the end, flush while open; "
           "append; copy_file; move_file) with contents from {empty, 1 byte, ASCII, non-UTF-8, 8191/8192/8193 and 70000 bytes} "
           "on all 15 backend configurations, a full content snapshot after every operation; non-trivial = at least 3 "
